@@ -1510,6 +1510,12 @@ pub fn case_union<A: Sh, B: Sh>(variant: usize, script: u64, st: &mut SStats) ->
                 what,
                 when
             );
+            if let Some(x) = u.as_first() {
+                ensure!(x.get() as *const A as usize == pa && x.ok(11), "C12", "union", "{} {}: as_first() exposes another address or value", what, when);
+            }
+            if let Some(x) = u.as_second() {
+                ensure!(x.get() as *const B as usize == pb && x.ok(22), "C12", "union", "{} {}: as_second() exposes another address or value", what, when);
+            }
             match u.borrow() {
                 ArcUnionBorrow::First(x) => {
                     ensure!(
